@@ -182,7 +182,8 @@ def _(self: "DM14Server"):
             len(trace[-1].l5) == ite(self.length - n - 1 > 0, self.length, 1 + n), trace[-1].l5[0] == ite(n > 7, 0xFF, n),
             forall(lambda j: trace[-1].l5[1 + j] == self.data[j], 0, n),
             forall(lambda j: trace[-1].l5[j] == 0xFF, 1 + n, len(trace[-1].l5)),
-            len(trace) == n0 + ite(n > 8, 2, 1))
+            # above seven octets the DM16 travels over the transport protocol: its acknowledge is awaited (one more subscription)
+            len(trace) == n0 + ite(n > 7, 2, 1))
 
 
 @unit("j1939.Dm14Server:DM14Server.verify_key", props=["C18"])
@@ -246,11 +247,14 @@ def _(self: "DM14Server", priority: "int", pgn: "int", sa: "int", timestamp: "re
     let("q0", old(len(self.data_queue)))
     raises("IndexError", when=mine and len(data) == 0, label="C17.dm16.server.empty")
     ensures("C17.dm16.server.foreign", implies(not mine, len(trace) == n0 and len(self.data_queue) == q0 and unchanged(self.state)))
-    # a write: the application gets exactly the octets behind the count octet (all of them above 7 octets), once
-    ensures("C17.dm16.server.take", implies(mine,
+    # a write (the server waits for the data): the application gets exactly the octets behind the count octet, once
+    ensures("C17.dm16.server.take", implies(mine and old(self.state) == ResponseState.WAIT_FOR_DM16,
             len(self.data_queue) == q0 + 1 and len(self.data_queue[-1]) == ite(n < 0, 0, n)
-            and forall(lambda j: self.data_queue[-1][j] == data[1 + j], 0, n)
-            and self.state == ResponseState.SEND_OPERATION_COMPLETE
+            and forall(lambda j: self.data_queue[-1][j] == data[1 + j], 0, n)))
+    # in any other state the call is the transport acknowledge of the server's own DM16 (a read): nothing is queued
+    ensures("C17.dm16.server.ack_is_not_data", implies(mine and old(self.state) != ResponseState.WAIT_FOR_DM16, len(self.data_queue) == q0))
+    ensures("C17.dm16.server.complete", implies(mine,
+            self.state == ResponseState.SEND_OPERATION_COMPLETE
             and len(trace) == n0 + 3
             and trace[n0].fn == fn("ControllerApplication.unsubscribe") and trace[n0].f1 == method(self, "_parse_dm16")
             and trace[n0 + 1].fn == fn("ControllerApplication.subscribe") and trace[n0 + 1].f1 == method(self, "parse_dm14")
